@@ -330,7 +330,9 @@ func evaluateDoc(input string, o sopts) verdict {
 	return v
 }
 
-func wrapPath(d string) string { return `<svg xmlns="http://www.w3.org/2000/svg"><path d="` + d + `"/></svg>` }
+func wrapPath(d string) string {
+	return `<svg xmlns="http://www.w3.org/2000/svg"><path d="` + d + `"/></svg>`
+}
 
 // evaluatePath: ShortenPathData called directly and through a document.
 func evaluatePath(d string) verdict {
